@@ -234,3 +234,203 @@ class LoadAsciiUnnamed(LoadAscii):
 def is_num(v):
     from pyvc.core import is_sym
     return isinstance(v, (int, float)) or is_sym(v)
+
+
+# ------------------------------------------------------------------ quadtree forecast files (csep.utils.readers)
+from pyvc.lib import STR_NUM      # noqa: E402
+
+QASCII = 'csep.utils.readers.quadtree_ascii_loader'
+QCSV = 'csep.utils.readers.quadtree_csv_loader'
+RD_MOD = 'csep.utils.readers'
+
+
+def quadtree_stub(c):
+    """QuadtreeGrid2D.from_quadkeys as an abstract record constructor (the real one: contracts/quadtree.py, C17)"""
+    def from_quadkeys(quadk, magnitudes=None, name=None):
+        n = quadk.shape[0] if isinstance(quadk, Arr) else len(quadk)
+        return Opaque('qregion', quadkeys=quadk, magnitudes=magnitudes, n_quadkeys=n)
+    c.ctx.ghost['global_overrides'] = {(RD_MOD, 'QuadtreeGrid2D'): Opaque('QuadtreeGrid2D', from_quadkeys=Lam(from_quadkeys, 'from_quadkeys'))}
+
+
+class QLayout(Layout):
+    """quadtree ASCII file: 10 text columns `quadkey lon0 lon1 lat0 lat1 z0 z1 m0 m1 rate`, C cells x M bins, bin fastest"""
+
+    def __init__(self, c):
+        Layout.__init__(self, c)
+        self.STRID = c.ctx.fresh_fun('field', I_, I_, I_)
+        self.QK = c.ctx.fresh_fun('quadkey_of_cell', I_, I_)
+        self.COL = [(lambda r, k=k: STR_NUM(self.STRID(r, z3.IntVal(k)))) for k in range(10)]
+
+    def content_facts(self):
+        C, M, n, CELL, MAGI, STRID = self.C, self.M, self.n, self.CELL, self.MAGI, self.STRID
+        r, a, b = z3.Ints('r!lay a!lay b!lay')
+        return [
+            z3.ForAll([r], z3.Implies(z3.And(0 <= r, r < n), z3.And(STRID(r, 0) == self.QK(CELL(r)), self.COL[7](r) == self.MAG0(MAGI(r)))),
+                      patterns=[STRID(r, 0), STRID(r, 7)]),
+            z3.ForAll([a, b], z3.Implies(z3.And(0 <= a, a < b, b < C), self.QK(a) != self.QK(b)), patterns=[z3.MultiPattern(self.QK(a), self.QK(b))]),
+            z3.ForAll([a, b], z3.Implies(z3.And(0 <= a, a < b, b < M), self.MAG0(a) != self.MAG0(b)), patterns=[z3.MultiPattern(self.MAG0(a), self.MAG0(b))]),
+        ]
+
+
+def _directed_quadtree(layout):
+    def fam():
+        keys = ['0', '10', '11', '12', '13', '2', '3']
+        return [('forecast_quadtree', dict(quadkeys=keys, mags=['4.95', '5.05', '5.15'], dmag='0.1', layout=layout)),
+                ('forecast_quadtree', dict(quadkeys=['3', '0', '2', '1'], mags=['4.95', '5.05'], dmag='0.1', layout=layout)),
+                ('forecast_quadtree', dict(quadkeys=['0', '1', '2', '3'], mags=['4.95'], dmag='0.1', layout=layout))]
+    return fam
+
+
+@contract
+class QuadtreeAsciiLoader:
+    directed = staticmethod(_directed_quadtree('ascii'))
+    qualname = QASCII
+    case = 'quadtree ASCII file of C cells x M magnitude bins (magnitude fastest), any C, M >= 1'
+    properties = ('C11',)
+
+    def params(c):
+        lay = QLayout(c)
+        c.ctx.ghost.setdefault('files', {})['forecast.dat'] = ('strtable', lay.n, 10, lay.STRID)
+        quadtree_stub(c)
+        return dict(ascii_fname='forecast.dat', _lay=lay, _k=c.int('cell'), _m=c.int('bin'))
+
+    def requires(c, ascii_fname, _lay, _k, _m):
+        c.I.used_lemmas.add('L10.row_layout')
+        c.I.used_lemmas.add('L9.enum_unique')
+        return _lay.division_facts() + _lay.content_facts() + [_lay.product_instance(_k)]
+
+    def lemmas(c, lay):
+        occs = c.ctx.ghost.get('first_occurrences', [])
+        if len(occs) != 2:
+            return
+        j = z3.Int('j!h')
+        occ = occs[0]
+        FOc, Jc = occ['FO'], occ['J']
+        yield ('hint:first occurrence of a quadkey is the first row of its cell',
+               z3.ForAll([j], z3.Implies(z3.And(0 <= j, j < occ['U']),
+                                         z3.And(lay.STRID(lay.ROW(lay.CELL(FOc(j)), 0), 0) == lay.STRID(FOc(j), 0), lay.MAGI(FOc(j)) == 0)),
+                         patterns=[FOc(j)]))
+        yield ('hint:the first row of every cell is a first occurrence',
+               z3.ForAll([j], z3.Implies(z3.And(0 <= j, j < lay.C), FOc(Jc(lay.BASE(j))) == lay.BASE(j)), patterns=[lay.BASE(j)]))
+        yield from _same_enumeration_hints(c, lay, occ, lay.BASE, lay.C, 'cells', lambda j: lay.CELL(FOc(j)), lambda k: Jc(lay.BASE(k)))
+        occ = occs[1]
+        FOm, Jm = occ['FO'], occ['J']
+        yield ('hint:first occurrence of a magnitude edge lies in the first cell',
+               z3.ForAll([j], z3.Implies(z3.And(0 <= j, j < occ['U']),
+                                         z3.And(lay.COL[7](lay.ROW(0, lay.MAGI(FOm(j)))) == lay.COL[7](FOm(j)),
+                                                lay.ROW(0, lay.MAGI(FOm(j))) == lay.MAGI(FOm(j)), lay.CELL(FOm(j)) == 0)),
+                         patterns=[FOm(j)]))
+        yield ('hint:every row of the first cell is a first occurrence',
+               z3.ForAll([j], z3.Implies(z3.And(0 <= j, j < lay.M), FOm(Jm(j)) == j), patterns=[Jm(j)]))
+        yield from _same_enumeration_hints(c, lay, occ, lambda k: k, lay.M, 'magnitude bins', lambda j: FOm(j), lambda k: Jm(k))
+
+    def ensures(c, r, ascii_fname, _lay, _k, _m):
+        lay, k, m = _lay, _k, _m
+        ok = isinstance(r, tuple) and len(r) == 3
+        yield 'returns (rates, region, magnitudes)', z3.BoolVal(ok)
+        if not ok:
+            return
+        yield from QuadtreeAsciiLoader.lemmas(c, lay)
+        rates, reg, mws = r
+        ok = isinstance(reg, Opaque) and reg.name == 'qregion' and isinstance(reg.quadkeys, Arr) and reg.quadkeys.ndim == 1
+        yield 'the region is built by QuadtreeGrid2D.from_quadkeys from an array of quadkeys', z3.BoolVal(ok)
+        if not ok:
+            return
+        ink = z3.And(0 <= k, k < lay.C)
+        yield 'one quadkey per spatial cell of the file', to_z3(reg.quadkeys.shape[0]) == lay.C
+        yield 'quadkey k == the quadkey of file cell k, cells in file order', z3.Implies(ink, to_z3(reg.quadkeys.f((k,))) == lay.QK(k))
+        yield 'the region gets the magnitudes that are returned', z3.BoolVal(reg.magnitudes is mws)
+        ok = isinstance(mws, Arr) and mws.ndim == 1
+        yield 'magnitudes: one lower edge per bin', to_z3(mws.shape[0]) == lay.M if ok else z3.BoolVal(False)
+        if ok:
+            yield 'magnitudes[m] == lower edge of bin m, in file order', z3.Implies(z3.And(0 <= m, m < lay.M), to_real(mws.f((m,))) == lay.MAG0(m))
+        ok = isinstance(rates, Arr) and rates.ndim == 2
+        yield 'rates has shape (cells, bins)', z3.And(to_z3(rates.shape[0]) == lay.C, to_z3(rates.shape[1]) == lay.M) if ok else z3.BoolVal(False)
+        if ok:
+            yield 'rates[k, m] == the rate written in the row of (cell k, bin m)', \
+                z3.Implies(z3.And(ink, 0 <= m, m < lay.M), to_real(rates.f((k, m))) == lay.COL[9](lay.ROW(k, m)))
+
+    def raises(c, exc, ascii_fname, _lay, _k, _m):
+        yield from QuadtreeAsciiLoader.lemmas(c, _lay)
+        yield 'no exception (the reshape of the rate column fits: rows == cells x bins)', z3.BoolVal(False)
+
+
+@contract
+class QuadtreeCsvLoader:
+    directed = staticmethod(_directed_quadtree('csv'))
+    qualname = QCSV
+    case = 'quadtree CSV file: header `quadkey, depth_min, depth_max, m_0 .. m_(M-1)`, then one row of M rates per cell; any C, M >= 1'
+    properties = ('C11',)
+
+    def params(c):
+        C, M = c.int('n_cells'), c.int('n_mag_bins')
+        STRID = c.ctx.fresh_fun('field', I_, I_, I_)
+        c.ctx.ghost.setdefault('files', {})['forecast.csv'] = ('strtable', C + 1, M + 3, STRID)
+        quadtree_stub(c)
+        return dict(csv_fname='forecast.csv', _C=C, _M=M, _S=STRID, _k=c.int('cell'), _m=c.int('bin'))
+
+    def requires(c, csv_fname, _C, _M, _S, _k, _m):
+        return [_C >= 1, _M >= 1]
+
+    def ensures(c, r, csv_fname, _C, _M, _S, _k, _m):
+        k, m = _k, _m
+        ok = isinstance(r, tuple) and len(r) == 3
+        yield 'returns (rates, region, magnitudes)', z3.BoolVal(ok)
+        if not ok:
+            return
+        rates, reg, mws = r
+        ok = isinstance(reg, Opaque) and reg.name == 'qregion' and isinstance(reg.quadkeys, Arr) and reg.quadkeys.ndim == 1
+        yield 'the region is built by QuadtreeGrid2D.from_quadkeys from an array of quadkeys', z3.BoolVal(ok)
+        if not ok:
+            return
+        ink = z3.And(0 <= k, k < _C)
+        inm = z3.And(0 <= m, m < _M)
+        yield 'one quadkey per data row', to_z3(reg.quadkeys.shape[0]) == _C
+        yield 'quadkey k == first field of data row k (file order)', z3.Implies(ink, to_z3(reg.quadkeys.f((k,))) == _S(k + 1, 0))
+        yield 'the region gets the magnitudes that are returned', z3.BoolVal(reg.magnitudes is mws)
+        ok = isinstance(mws, Arr) and mws.ndim == 1
+        yield 'magnitudes: one per header field after the first three', to_z3(mws.shape[0]) == _M if ok else z3.BoolVal(False)
+        if ok:
+            yield 'magnitudes[m] == the number in header field 3 + m', z3.Implies(inm, to_real(mws.f((m,))) == STR_NUM(_S(0, m + 3)))
+        ok = isinstance(rates, Arr) and rates.ndim == 2
+        yield 'rates has shape (cells, bins)', z3.And(to_z3(rates.shape[0]) == _C, to_z3(rates.shape[1]) == _M) if ok else z3.BoolVal(False)
+        if ok:
+            yield 'rates[k, m] == the number in field 3 + m of data row k', z3.Implies(z3.And(ink, inm), to_real(rates.f((k, m))) == STR_NUM(_S(k + 1, m + 3)))
+
+    def raises(c, exc, csv_fname, _C, _M, _S, _k, _m):
+        return None
+
+
+@contract
+class FromCustom:
+    qualname = 'csep.core.forecasts.GriddedForecast.from_custom'
+    case = 'loader returning (data, region, magnitudes); extra keyword arguments'
+    properties = ('C11',)
+
+    def params(c):
+        toks = (Opaque('loader_data'), Opaque('loader_region'), Opaque('loader_magnitudes'))
+        args = (Opaque('arg0'), Opaque('arg1'))
+        seen = []
+
+        def loader(*a, **kw):
+            seen.append((a, kw))
+            return toks
+
+        def forecast(*a, **kw):
+            return Opaque('forecast', args=a, kwargs=kw)
+        return dict(cls=Lam(forecast, 'cls'), func=Lam(loader, 'func'), func_args=args, name='fc', start_time=Opaque('t0'),
+                    _toks=toks, _seen=seen, _args=args)
+
+    def ensures(c, r, cls, func, func_args, name, start_time, _toks, _seen, _args):
+        yield 'the loader is called once with exactly func_args', z3.BoolVal(len(_seen) == 1 and len(_seen[0][0]) == 2 and not _seen[0][1]
+                                                                            and all(a is b for a, b in zip(_seen[0][0], _args)))
+        ok = isinstance(r, Opaque) and r.name == 'forecast'
+        yield 'returns what the class constructor returns', z3.BoolVal(ok)
+        if ok:
+            kw = r.kwargs
+            yield 'data, region and magnitudes of the loader go to the parameters of the same name (not swapped), keywords are passed on', \
+                z3.BoolVal(not r.args and kw.get('data') is _toks[0] and kw.get('region') is _toks[1] and kw.get('magnitudes') is _toks[2]
+                           and kw.get('name') == 'fc' and kw.get('start_time') is start_time and set(kw) == {'data', 'region', 'magnitudes', 'name', 'start_time'})
+
+    def raises(c, exc, **kw):
+        return None
